@@ -25,7 +25,7 @@ type C13Case struct {
 	Ops    []C13Op `json:"ops"`
 }
 
-var c13ValClasses = []string{"stack", "alias", "aliasS", "ptralias", "ptraliasNS", "ptrstack", "emptystack", "cond", "condstack", "condalias", "prim", "prim", "nil", "slice", "weirdptr", "nnstack", "fullstack"}
+var c13ValClasses = []string{"stack", "alias", "aliasS", "ptralias", "ptraliasNS", "ptrstack", "emptystack", "cond", "condstack", "condalias", "prim", "prim", "nil", "slice", "weirdptr", "nnstack", "fullstack", "ptrzero"}
 
 func c13StackLike(class string) bool {
 	switch class {
@@ -68,6 +68,8 @@ func c13Value(class string, tag int) any {
 		return stackage.And().Push("in" + itoa(tag)).SetNoNesting(true)
 	case "fullstack":
 		return stackage.Or(1).Push("in" + itoa(tag)).SetReadOnly(true)
+	case "ptrzero": // a pointer to a zero Stack alias: not a Stack now; its owner may assign one later (op "pointee")
+		return new(MyStack)
 	case "weirdptr":
 		return weirdPointer(tag) // typed nil pointers of depth 1..3 and live pointers to nil pointers: not Stacks
 	}
@@ -96,6 +98,44 @@ func sameValue(a, b any) bool {
 		return reflect.DeepEqual(a, b)
 	}
 	return a == b
+}
+
+// c13Pointee changes what a held pointer points at, through the pointer itself (the way the owner of the variable
+// would): fill = an initialised Stack is assigned, otherwise the zero value. Reports whether v was such a pointer.
+func c13Pointee(v any, fill bool, tag int) bool {
+	fresh := stackage.And().Push("late" + itoa(tag))
+	switch p := v.(type) {
+	case *MyStack:
+		if p == nil {
+			return false
+		}
+		if fill {
+			*p = MyStack(fresh)
+		} else {
+			*p = MyStack{}
+		}
+	case *MyStackS:
+		if p == nil {
+			return false
+		}
+		if fill {
+			*p = MyStackS(fresh)
+		} else {
+			*p = MyStackS{}
+		}
+	case *stackage.Stack:
+		if p == nil {
+			return false
+		}
+		if fill {
+			*p = fresh
+		} else {
+			*p = stackage.Stack{}
+		}
+	default:
+		return false
+	}
+	return true
 }
 
 func runC13(c C13Case) (st Stats, err error) {
@@ -145,6 +185,13 @@ func runC13(c C13Case) (st Stats, err error) {
 					case 2:
 						cd.SetEncap(`"`)
 					}
+				case "pointee":
+					_, was := unwrapStack(expr)
+					if c13Pointee(expr, op.Mode == 0, i) {
+						if _, is := unwrapStack(expr); was != is {
+							st.Class("held-pointee-changed-nature")
+						}
+					}
 				case "setexpr", "push":
 					cl := "prim"
 					if len(op.Vals) > 0 {
@@ -176,8 +223,8 @@ func runC13(c C13Case) (st Stats, err error) {
 			if cd.CanNest() != !flag {
 				return st, violf("Condition.CanNest", "step %d: CanNest()=%v with no-nesting=%v", i, cd.CanNest(), flag)
 			}
-			if cd.IsNesting() != c13StackLike(exprClass) {
-				return st, violf("Condition.IsNesting/"+exprClass, "step %d: IsNesting()=%v with expression class %q", i, cd.IsNesting(), exprClass)
+			if _, nesting := unwrapStack(expr); cd.IsNesting() != nesting {
+				return st, violf("Condition.IsNesting/"+exprClass, "step %d (%+v): IsNesting()=%v with expression class %q, which is a Stack now: %v", i, op, cd.IsNesting(), exprClass, nesting)
 			}
 		}
 		st.Class("cond-side")
@@ -211,6 +258,17 @@ func runC13(c C13Case) (st Stats, err error) {
 					s.SetLeadOnce()
 				case 5:
 					s.SetForwardIndices()
+				}
+			case "pointee":
+				if m.Len() == 0 {
+					return
+				}
+				pos := posMod(op.A, m.Len())
+				_, was := unwrapStack(m.Elems[pos])
+				if c13Pointee(m.Elems[pos], op.Mode == 0, i) {
+					if _, is := unwrapStack(m.Elems[pos]); was != is {
+						st.Class("held-pointee-changed-nature")
+					}
 				}
 			case "nonest":
 				applyMode(op.Mode)
@@ -279,8 +337,8 @@ func runC13(c C13Case) (st Stats, err error) {
 			return st, violf("Stack.CanNest", "step %d (%+v): CanNest()=%v with no-nesting=%v", i, op, s.CanNest(), flag)
 		}
 		want := false
-		for _, cl := range classes {
-			if c13StackLike(cl) {
+		for _, e := range m.Elems { // what the elements are NOW (a held pointer's target may have been assigned or cleared since)
+			if _, ok := unwrapStack(e); ok {
 				want = true
 			}
 		}
@@ -305,7 +363,7 @@ func genC13(t *rapid.T, tier Tier) C13Case {
 	}
 	c.Amb = drawAmbient(t, false)
 	n := rapid.IntRange(1, 20).Draw(t, "nops")
-	ops := []string{"push", "push", "push", "nonest", "nonest", "pop", "remove", "noise"}
+	ops := []string{"push", "push", "push", "nonest", "nonest", "pop", "remove", "noise", "pointee"}
 	for i := 0; i < n; i++ {
 		o := C13Op{Op: rapid.SampledFrom(ops).Draw(t, "op")}
 		switch o.Op {
@@ -322,6 +380,9 @@ func genC13(t *rapid.T, tier Tier) C13Case {
 			}
 		case "nonest":
 			o.Mode = rapid.IntRange(0, 2).Draw(t, "mode")
+		case "pointee":
+			o.A = rapid.IntRange(0, 20).Draw(t, "a")
+			o.Mode = rapid.IntRange(0, 1).Draw(t, "fill")
 		case "remove", "noise":
 			o.A = rapid.IntRange(0, 20).Draw(t, "a")
 		}
@@ -338,7 +399,7 @@ func init() {
 			"IsNesting()==exists stack-like element. non-trivial = a batch with >=1 stack-like and >=1 other value pushed while the flag is set, after a stack was pushed while it was clear (Condition side: a refused stack after an accepted expression); distinct = distinct case JSON",
 		Gen:         genC13,
 		Run:         runC13,
-		Floors:      map[string]float64{"mixed-batch-while-set-after-stack-while-clear": 0.05, "cond-side": 0.1, "toggle-form-2": 0.1},
+		Floors:      map[string]float64{"mixed-batch-while-set-after-stack-while-clear": 0.05, "cond-side": 0.1, "toggle-form-2": 0.1, "held-pointee-changed-nature": 0.03},
 		Assumptions: []string{"no push policy is installed (the docs hand control to the policy when one is)"},
 	})
 }
